@@ -48,7 +48,7 @@ ENTRY h_producer_add() {
     VASSERT(rg_published == 0 && !rg_pending && rg_ndeleted == 0, "Add false: nothing of the element is in the buffer and nothing was deleted");
     bool nowhere = true; for (uint64_t i = 0; i < MAXSZ + 1; i++) nowhere = nowhere && rg_slots[i] != me;
     VASSERT(nowhere, "Add false: no slot holds the element");
-    VASSERT(rg_head_read - rg_tail_entry >= MAXSZ, "Add false only when (elements added so far) - (consumed before it started) fill the capacity");
+    VASSERT(rg_head_read >= rg_tail_entry && rg_head_read - rg_tail_entry >= MAXSZ, "Add false only when (elements added so far) - (consumed before it started) fill the capacity");
   }
   VASSERT(rg_invariant(), "Add leaves the queue invariant intact");
   p.release();
